@@ -145,6 +145,16 @@ func init() {
 					fixed = append(fixed, authCase{mech: mech, user: "iter-user", pass: "iter-pass", srvPass: "iter-pass", salt: []byte("fixed-salt-16byt"), iter: iter})
 				}
 			}
+			// ... and salts whose base64 form begins with each letter a careless trim of "s=" / "i=" / "r=" would eat,
+			// of every padding length
+			for _, mech := range []string{"SCRAM-SHA-1", "SCRAM-SHA-256"} {
+				for _, first := range []byte{0xb0, 0xb2, 0x88, 0x8a, 0xac, 0xae, 0xf4, 0x00, 0xff} { // s, s, i, i, r, r, 9, A, /
+					for _, l := range []int{1, 2, 3, 16} {
+						salt := append([]byte{first}, bytes.Repeat([]byte{0x5a}, l-1)...)
+						fixed = append(fixed, authCase{mech: mech, user: "salt-user", pass: "salt-pass", srvPass: "salt-pass", salt: salt, iter: 64})
+					}
+				}
+			}
 			for i := 0; i < n+len(fixed); i++ {
 				var ac authCase
 				if i < len(fixed) {
